@@ -229,11 +229,15 @@ let () =
                    | Some b -> "ok " ^ hex_of_bytes b
                    | None -> "illtyped")
                | "rtv", [ t; v ] -> (
-                   match encode env (TNamed (cl t)) (parse_val v) with
+                   let v0 = parse_val v in
+                   let vc = canon_val env type_fuel (TNamed (cl t)) v0 in
+                   let inside = wt env type_fuel (TNamed (cl t)) vc
+                                && encode env (TNamed (cl t)) vc = encode env (TNamed (cl t)) v0 in
+                   match encode env (TNamed (cl t)) v0 with
                    | None -> "illtyped"
                    | Some b -> (
                        match decode env (TNamed (cl t)) b with
-                       | Ok (v, r) -> Printf.sprintf "ok %s rest=%d" (show_val v) (List.length r)
+                       | Ok (v, r) -> Printf.sprintf "ok %s rest=%d wt=%d" (show_val v) (List.length r) (if inside then 1 else 0)
                        | Err e -> "err " ^ cerr_name e
                        | Panic s -> "panic " ^ str s
                        | Fuel -> "fuel"))
